@@ -129,6 +129,11 @@ def validate(work, lines):
 
 
 def signature(rej, line):
+    if line.get("ev") == "Stall":
+        import re
+        fns = [f for f in re.findall(r"(node/pkg/(?:p2p|common)[\w/]*\.[\w.()*]+)\(", line.get("s", {}).get("stacks", ""))
+               if "TestVerif" not in f and "zz_verif" not in f]
+        return "gossip-stall/%s" % (fns[0].split("/")[-1] if fns else "verifier-never-returned")
     if "panic" in line.get("s", {}):
         return "gossip-panic/%s" % line["ev"]
     e = line.get("a", {}).get("e", {})
